@@ -2,7 +2,7 @@
 
 Three parts:
   translate()  source -> lean/Model/Generated/UfuncSites.lean (masked-ufunc sites, np.empty
-               allocation sites of the anchored files, accumulating kernels of the .pyx files);
+               allocation sites of every module, accumulating buffers of every .pyx kernel);
                Props/C19.lean `decide`s the obligations over the regenerated tables.
   run()        (1) Lean model vs real code for the masked ufunc / libdist / libinfo mechanisms,
                (2) the main detector: every routine of the API table x argument sets x
@@ -74,28 +74,102 @@ def _lean_str(s):
     return '"' + s.replace('\\', '\\\\').replace('"', '\\"') + '"'
 
 
+# callees that take a `where=` keyword and are provably NOT element-wise numpy/scipy ufuncs
+# (PyTables node addressing).  numpy attributes that resolve to a non-ufunc callable (np.sum, np.mean, ...:
+# reductions with an identity / initial value, no uninitialised output) are recognised by lookup.
+NON_UFUNC_WHERE_CALLEES = {'get_node', 'create_carray', 'create_earray', 'create_array', 'create_vlarray',
+                           'create_table', 'create_group', 'remove_node', 'list_nodes', 'walk_nodes',
+                           'iter_nodes', 'copy_node', 'move_node', 'rename_node', 'get_node_attr',
+                           'set_node_attr', 'walk_groups'}
+# expressions that yield a buffer with defined content
+_INIT_ALLOCS = {'zeros', 'ones', 'full', 'zeros_like', 'ones_like', 'full_like', 'array', 'copy', 'identity',
+                'eye', 'arange', 'ascontiguousarray'}
+_EMPTY_ALLOCS = ('empty', 'empty_like', 'ndarray')
+
+
+def _all_numpy_ufunc_names():
+    return {n for n in dir(np) if isinstance(getattr(np, n, None), np.ufunc)}
+
+
 class _SiteVisitor(ast.NodeVisitor):
-    """Collects masked ufunc calls and empty allocations of one module."""
+    """Collects masked ufunc calls and empty allocations of one module.  CONSERVATIVE: a call carrying
+    `where=` (or a `**` splat on a callee that may be a ufunc) is a site unless the callee is provably not an
+    element-wise ufunc; `out=` counts only when the expression is recognisably an initialised buffer."""
 
     def __init__(self, rel):
         self.rel = rel
         self.np_alias = set()       # names bound to the numpy module
-        self.from_np = {}           # local name -> numpy attribute (from numpy import x as y)
+        self.mod_alias = set()      # names bound to numpy/scipy (sub)modules whose attributes may be ufuncs
+        self.ufunc_names = {}       # local name -> description, names bound to (possible) ufuncs
         self.stack = []
         self.nodes = []
         self.ufunc_sites = []
-        self.other_where = []       # where= calls that are not numpy ufuncs (information only)
-        self.alloc_calls = []       # (node, func name)
+        self.other_where = []       # where= calls that are provably not ufuncs (information only)
+        self.alloc_calls = []       # (node, func name, attr)
 
+    # ---- bindings ----
     def visit_Import(self, node):
         for a in node.names:
+            root = a.name.split('.')[0]
             if a.name == 'numpy':
                 self.np_alias.add(a.asname or 'numpy')
+            if root in ('numpy', 'scipy'):
+                self.mod_alias.add(a.asname or root)
 
     def visit_ImportFrom(self, node):
-        if node.module == 'numpy':
-            for a in node.names:
-                self.from_np[a.asname or a.name] = a.name
+        mod = node.module or ''
+        root = mod.split('.')[0]
+        if root not in ('numpy', 'scipy'):
+            return
+        for a in node.names:
+            if a.name == '*':
+                if mod == 'numpy':
+                    for n in _all_numpy_ufunc_names():
+                        self.ufunc_names.setdefault(n, 'numpy.' + n)
+                else:
+                    self.star_unknown = True
+                continue
+            local = a.asname or a.name
+            if mod == 'numpy':
+                obj = getattr(np, a.name, None)
+                if isinstance(obj, np.ufunc):
+                    self.ufunc_names[local] = a.name
+                elif obj is None or not callable(obj) or isinstance(obj, type(np)):
+                    self.mod_alias.add(local)           # a submodule (numpy.ma, ...)
+                else:
+                    self.ufunc_names.pop(local, None)
+                    self.non_ufunc = getattr(self, 'non_ufunc', set()) | {local}
+            else:
+                # scipy: a submodule (special, ...) or a function that may be a ufunc (xlogy, ...)
+                self.mod_alias.add(local)
+                self.ufunc_names[local] = mod + '.' + a.name
+
+    def _ufunc_valued(self, v):
+        """description when the expression may evaluate to a ufunc: np.log, special.xlogy, getattr(np, ..)"""
+        if isinstance(v, ast.Attribute) and isinstance(v.value, ast.Name) and v.value.id in self.np_alias:
+            return v.attr if isinstance(getattr(np, v.attr, None), np.ufunc) else None
+        if isinstance(v, ast.Attribute):
+            base = v
+            while isinstance(base, ast.Attribute):
+                base = base.value
+            if isinstance(base, ast.Name) and base.id in self.mod_alias and base.id not in self.np_alias:
+                return ast.unparse(v)
+            if (isinstance(base, ast.Name) and base.id in self.np_alias and isinstance(v.value, ast.Attribute)):
+                return ast.unparse(v)                    # np.ma.log, np.add.reduce, ...
+        if (isinstance(v, ast.Call) and isinstance(v.func, ast.Name) and v.func.id == 'getattr' and v.args
+                and isinstance(v.args[0], ast.Name) and v.args[0].id in (self.np_alias | self.mod_alias)):
+            return 'getattr(%s, ...)' % v.args[0].id
+        if isinstance(v, ast.Name) and v.id in self.ufunc_names:
+            return self.ufunc_names[v.id]
+        return None
+
+    def visit_Assign(self, node):
+        d = self._ufunc_valued(node.value)
+        for t in node.targets:
+            if isinstance(t, ast.Name):
+                if d:
+                    self.ufunc_names[t.id] = d
+        self.generic_visit(node)
 
     def _scoped(self, node):
         self.stack.append(node.name)
@@ -104,55 +178,126 @@ class _SiteVisitor(ast.NodeVisitor):
         self.nodes.pop()
         self.stack.pop()
 
-    def _is_empty_alloc(self, v):
-        return isinstance(v, ast.Call) and self._np_attr(v.func) in ('empty', 'empty_like', 'ndarray')
-
-    def _out_is_uninitialised(self, out, lineno):
-        """`out=np.empty(..)` or `out=<name>` whose latest preceding assignment in the enclosing
-        function is such an allocation: passing it does not initialise the masked-out cells."""
-        if self._is_empty_alloc(out):
-            return True
-        if isinstance(out, ast.Name) and self.nodes:
-            last = None
-            for n in ast.walk(self.nodes[-1]):
-                if (isinstance(n, ast.Assign) and n.lineno < lineno
-                        and any(isinstance(t, ast.Name) and t.id == out.id for t in n.targets)):
-                    if last is None or n.lineno > last.lineno:
-                        last = n
-            return last is not None and self._is_empty_alloc(last.value)
-        return False
-
     visit_FunctionDef = _scoped
     visit_AsyncFunctionDef = _scoped
     visit_ClassDef = _scoped
 
+    # ---- helpers ----
     def _np_attr(self, f):
         """numpy attribute name the callee refers to, or None"""
         if isinstance(f, ast.Attribute) and isinstance(f.value, ast.Name) and f.value.id in self.np_alias:
             return f.attr
-        if isinstance(f, ast.Name) and f.id in self.from_np:
-            return self.from_np[f.id]
+        if isinstance(f, ast.Name) and f.id in self.ufunc_names and '.' not in self.ufunc_names[f.id] \
+                and not self.ufunc_names[f.id].startswith('getattr'):
+            return self.ufunc_names[f.id]
         return None
 
+    def _alloc_kind(self, v):
+        """'init' / 'empty' / None for an expression"""
+        if isinstance(v, ast.Call):
+            attr = None
+            if isinstance(v.func, ast.Attribute) and isinstance(v.func.value, ast.Name) \
+                    and v.func.value.id in self.np_alias:
+                attr = v.func.attr
+            if attr in _EMPTY_ALLOCS:
+                return 'empty'
+            if attr in _INIT_ALLOCS:
+                return 'init'
+            if isinstance(v.func, ast.Attribute) and v.func.attr in ('copy', 'astype') and attr is None:
+                return 'init'                              # x.copy(), x.astype(..): a new, defined array
+        return None
+
+    def _bindings(self, name):
+        """kinds of EVERY binding of `name` in the enclosing function (None when there is no function)"""
+        if not self.nodes or not isinstance(self.nodes[-1], (ast.FunctionDef, ast.AsyncFunctionDef)):
+            return None
+        fn = self.nodes[-1]
+        kinds = []
+        a = fn.args
+        for arg in a.posonlyargs + a.args + a.kwonlyargs + [x for x in (a.vararg, a.kwarg) if x]:
+            if arg.arg == name:
+                kinds.append('parameter')
+        for n in ast.walk(fn):
+            if isinstance(n, ast.Assign):
+                for t in n.targets:
+                    if isinstance(t, ast.Name) and t.id == name:
+                        kinds.append(self._alloc_kind(n.value) or 'other')
+                    elif any(isinstance(x, ast.Name) and x.id == name for x in ast.walk(t)) \
+                            and not isinstance(t, (ast.Subscript, ast.Attribute)):
+                        kinds.append('unpacked')
+            elif isinstance(n, ast.AnnAssign) and isinstance(n.target, ast.Name) and n.target.id == name:
+                kinds.append((self._alloc_kind(n.value) if n.value is not None else None) or 'other')
+            elif isinstance(n, (ast.AugAssign,)) and isinstance(n.target, ast.Name) and n.target.id == name:
+                pass                                       # in-place update of an existing binding
+            elif isinstance(n, (ast.For, ast.AsyncFor, ast.comprehension)):
+                if any(isinstance(x, ast.Name) and x.id == name for x in ast.walk(n.target)):
+                    kinds.append('loop-target')
+            elif isinstance(n, (ast.With, ast.AsyncWith)):
+                for it in n.items:
+                    if it.optional_vars is not None and any(
+                            isinstance(x, ast.Name) and x.id == name for x in ast.walk(it.optional_vars)):
+                        kinds.append('with-target')
+            elif isinstance(n, ast.NamedExpr) and n.target.id == name:
+                kinds.append(self._alloc_kind(n.value) or 'other')
+            elif isinstance(n, (ast.Global, ast.Nonlocal)) and name in n.names:
+                kinds.append('global')
+        return kinds
+
+    def _out_initialised(self, out):
+        """True only when `out` is recognisably a buffer with defined content: an initialising allocation
+        written in place, or a name whose EVERY binding in the enclosing function is one."""
+        if out is None or (isinstance(out, ast.Constant) and out.value is None):
+            return False
+        if self._alloc_kind(out) == 'init':
+            return True
+        if isinstance(out, ast.Name):
+            kinds = self._bindings(out.id)
+            return bool(kinds) and all(k == 'init' for k in kinds)
+        return False                                       # attribute, subscript, call result, parameter ...
+
+    def _callee_class(self, f):
+        """('ufunc', name, nin) / ('maybe', text, None) / ('non-ufunc', text, None) / ('unknown', text, None)"""
+        text = ast.unparse(f)
+        attr = self._np_attr(f)
+        if attr is not None:
+            obj = getattr(np, attr, None)
+            if isinstance(obj, np.ufunc):
+                return 'ufunc', attr, obj.nin
+            if callable(obj):
+                return 'non-ufunc', text, None            # np.sum, np.mean, np.where, ...
+            return 'maybe', text, None
+        if isinstance(f, ast.Attribute) and f.attr in NON_UFUNC_WHERE_CALLEES:
+            return 'non-ufunc', text, None
+        if isinstance(f, ast.Name) and f.id in getattr(self, 'non_ufunc', set()):
+            return 'non-ufunc', text, None
+        if self._ufunc_valued(f) is not None:
+            return 'maybe', text, None
+        return 'unknown', text, None
+
     def visit_Call(self, node):
-        attr = self._np_attr(node.func)
         fn = '.'.join(self.stack) or '<module>'
         kws = {k.arg: k.value for k in node.keywords}
+        splat = None in kws
+        cls, name, nin = self._callee_class(node.func)
+        site = False
         if 'where' in kws:
-            uf = getattr(np, attr, None) if attr else None
-            if attr and isinstance(uf, np.ufunc):
-                out = kws.get('out')
-                has_out = out is not None and not (isinstance(out, ast.Constant) and out.value is None)
-                if len(node.args) > uf.nin:      # positional out
-                    has_out, out = True, node.args[uf.nin]
-                if has_out and self._out_is_uninitialised(out, node.lineno):
-                    has_out = False                  # an np.empty buffer is as good as none
-                self.ufunc_sites.append({'file': self.rel, 'line': node.lineno, 'func': fn,
-                                         'ufunc': attr, 'hasOut': bool(has_out)})
-            else:
-                self.other_where.append({'file': self.rel, 'line': node.lineno,
-                                         'callee': ast.unparse(node.func)})
-        if attr in ('empty', 'empty_like', 'ndarray'):
+            site = cls != 'non-ufunc'
+            if not site:
+                self.other_where.append({'file': self.rel, 'line': node.lineno, 'callee': name})
+        elif splat and cls in ('ufunc', 'maybe'):
+            site = True                                    # `where` (and `out`) may travel in the dict
+        if site:
+            out = kws.get('out')
+            if out is None and nin is not None and len(node.args) > nin:
+                out = node.args[nin]                       # positional out
+            has_out = self._out_initialised(out)
+            self.ufunc_sites.append({'file': self.rel, 'line': node.lineno, 'func': fn,
+                                     'ufunc': name if cls == 'ufunc' else '?' + name, 'hasOut': bool(has_out)})
+        attr = self._np_attr(node.func)
+        if attr is None and isinstance(node.func, ast.Attribute) and isinstance(node.func.value, ast.Name) \
+                and node.func.value.id in self.np_alias:
+            attr = node.func.attr
+        if attr in _EMPTY_ALLOCS:
             self.alloc_calls.append((node, fn, attr))
         self.generic_visit(node)
 
@@ -171,6 +316,8 @@ def _classify_alloc(tree, call):
     """
     t, kind = _classify_alloc_pattern(tree, call)
     if kind == 'uninitialised':
+        kind = _collective_fill(tree, call) or kind
+    if kind == 'uninitialised':
         dt = next((k.value for k in call.keywords if k.arg == 'dtype'), call.args[1] if len(call.args) > 1 else None)
         if dt is not None and (
                 (isinstance(dt, ast.Constant) and dt.value in ('O', 'object'))
@@ -178,6 +325,47 @@ def _classify_alloc(tree, call):
                 or (isinstance(dt, ast.Attribute) and dt.attr in ('object_', 'object'))):
             kind = 'objectNone'
     return t, kind
+
+
+_COLLECTIVES = {'Bcast', 'Recv', 'Scatter', 'Scatterv', 'Allgather', 'Allgatherv', 'Gather', 'Gatherv',
+                'Allreduce', 'Reduce', 'Sendrecv'}
+
+
+def _collective_fill(tree, call):
+    """'collectiveFill' when the FIRST statement after the allocation (searching the enclosing statement
+    lists outwards) that mentions the buffer hands it whole to an MPI receive-type collective
+    (`comm.Bcast(t, ...)`): every cell is written before any read."""
+    # chain of (statement list, index) from the outermost body down to the assignment
+    def find(bodyowner, chain):
+        for fieldname in ('body', 'orelse', 'finalbody', 'handlers'):
+            body = getattr(bodyowner, fieldname, None)
+            if not isinstance(body, list):
+                continue
+            for k, st in enumerate(body):
+                if isinstance(st, ast.Assign) and st.value is call:
+                    return chain + [(body, k)]
+                if isinstance(st, ast.AST):
+                    r = find(st, chain + [(body, k)])
+                    if r:
+                        return r
+        return None
+    chain = find(tree, [])
+    if not chain:
+        return None
+    st = chain[-1][0][chain[-1][1]]
+    if not (len(st.targets) == 1 and isinstance(st.targets[0], ast.Name)):
+        return None
+    t = st.targets[0].id
+    for body, k in reversed(chain):
+        if isinstance(body[k], (ast.FunctionDef, ast.AsyncFunctionDef, ast.ClassDef)):
+            break
+        for nx in body[k + 1:]:
+            if any(isinstance(x, ast.Name) and x.id == t for x in ast.walk(nx)):
+                ok = (isinstance(nx, ast.Expr) and isinstance(nx.value, ast.Call)
+                      and isinstance(nx.value.func, ast.Attribute) and nx.value.func.attr in _COLLECTIVES
+                      and nx.value.args and isinstance(nx.value.args[0], ast.Name) and nx.value.args[0].id == t)
+                return 'collectiveFill' if ok else None
+    return None
 
 
 def _classify_alloc_pattern(tree, call):
@@ -235,11 +423,65 @@ def _classify_alloc_pattern(tree, call):
 
 
 _PYX_DEF = re.compile(r'^(?:def|cpdef|cdef)\s+(?:[\w\.\[\], ]+\s+)?(\w+)\s*\(')
-_PYX_AUG = re.compile(r'^\s*(\w+)\s*\[[^\]]*\]\s*(\+=|-=|\*=|/=)')
+_PYX_AUG = re.compile(r'^\s*(\w+)\s*\[([^\]]*)\]\s*(\+=|-=|\*=|/=)')
+_PYX_SELF = re.compile(r'^\s*(\w+)\s*\[([^\]]*)\]\s*=\s*(.*)$')       # out[i] = out[i] + x
+_PYX_LOOP = re.compile(r'^\s*for\s+(\w+)\s+in\s+p?range\s*\((.*)\)\s*:\s*$')
+_PYX_BLOCK = re.compile(r'^\s*(if|elif|else|while|try|except|finally|for|with)\b')
+
+
+def _loop_range(arg):
+    """normalised iteration space of `range(..)`/`prange(..)`: only a single positional bound is a full range"""
+    parts = [x.strip() for x in re.split(r',(?![^()]*\))', arg) if x.strip()]
+    pos = [x for x in parts if not re.match(r'^\w+\s*=', x)]
+    return re.sub(r'\s+', '', pos[0]) if len(pos) == 1 else None
+
+
+def _enclosing(lines_by_no, no):
+    """headers of the blocks enclosing line `no` inside its function, innermost last: (indent, text)"""
+    ind = len(lines_by_no[no]) - len(lines_by_no[no].lstrip())
+    out = []
+    for k in range(no - 1, 0, -1):
+        l = lines_by_no.get(k)
+        if l is None:
+            break
+        if not l.strip():
+            continue
+        i2 = len(l) - len(l.lstrip())
+        if i2 < ind and l.rstrip().endswith(':'):
+            out.append((i2, l.strip()))
+            ind = i2
+    return list(reversed(out))
+
+
+def _index_space(lines_by_no, no, idx, conditional_ok=False):
+    """iteration space of the loop that drives the first index variable of a cell access at line `no`;
+    ('conditional', ..) when the line sits under an if / while / try, ('partial', ..) for a sliced range"""
+    first = re.split(r'[,\s]', idx.strip())[0]
+    space = None
+    for _, h in _enclosing(lines_by_no, no):
+        if re.match(r'^(def|cpdef|cdef)\b', h):
+            continue
+        m = _PYX_LOOP.match(h)
+        if m:
+            if m.group(1) == first:
+                r = _loop_range(m.group(2))
+                space = ('full', r) if r is not None else ('partial', m.group(2))
+            continue
+        if re.match(r'^with\s+(nogil|gil)\b', h):
+            continue
+        if conditional_ok and re.match(r'^(if|elif|else)\b', h):
+            continue                                     # accumulating under a condition is fine
+        return ('conditional', h)
+    return space if space is not None else ('scalar', first)
 
 
 def _scan_pyx(rel, text):
-    """(alloc sites, accumulating sites) of a Cython file by line patterns (comments stripped)."""
+    """(alloc sites, accumulating sites, where= lines) of a Cython file by line patterns (comments stripped).
+    An accumulation is a compound assignment into a cell, or `b[i] = b[i] <op> ..`.  The buffer counts as
+    initialised when, earlier in the same function and not under any if / while / try,
+      zeroLoop        : `b[i] = 0` runs over the SAME full iteration space as the accumulation, or
+      zerosAlloc      : `b = np.zeros(..)`, or
+      computedBinding : `b = <expression>` that is not np.empty / np.ndarray (e.g. `X.sum(axis=1)`)."""
     lines = [re.sub(r'#.*$', '', l) for l in text.split('\n')]
     funcs, cur = [], None
     for no, l in enumerate(lines, 1):
@@ -251,26 +493,64 @@ def _scan_pyx(rel, text):
             cur = None            # left the function (new top-level statement)
         if cur is not None:
             cur['lines'].append((no, l))
-    allocs, accums = [], []
+    allocs, accums, wheres = [], [], []
+
+    def func_of(no):
+        return next((f['name'] for f in reversed(funcs)
+                     if f['start'] <= no and f['lines'] and f['lines'][-1][0] >= no), '<module>')
     for no, l in enumerate(lines, 1):
         m = re.search(r'\bnp\.(empty_like|empty|ndarray)\s*\(', l)
         if m:
-            fn = next((f['name'] for f in reversed(funcs) if f['start'] <= no and f['lines'] and f['lines'][-1][0] >= no), '<module>')
-            allocs.append({'file': rel, 'line': no, 'func': fn, 'call': m.group(1), 'target': '?',
+            allocs.append({'file': rel, 'line': no, 'func': func_of(no), 'call': m.group(1), 'target': '?',
                            'init': 'uninitialised'})
+        if re.search(r'\bwhere\s*=', l):
+            wheres.append({'file': rel, 'line': no, 'func': func_of(no), 'ufunc': '?pyx:' + l.strip()[:40],
+                           'hasOut': bool(re.search(r'\bout\s*=\s*np\.(zeros|ones|full)', l))})
     for f in funcs:
+        by_no = dict(f['lines'])
         seen = set()
         for no, l in f['lines']:
             m = _PYX_AUG.match(l)
+            if not m:
+                m2 = _PYX_SELF.match(l)
+                if m2 and re.search(r'\b%s\s*\[\s*%s\s*\]' % (re.escape(m2.group(1)), re.escape(m2.group(2).strip())),
+                                    m2.group(3)):
+                    m = m2
             if not m or m.group(1) in seen:
                 continue
-            buf = m.group(1)
+            buf, idx = m.group(1), m.group(2)
             seen.add(buf)
-            zero_cell = re.compile(r'^\s*%s\s*\[[^\]]*\]\s*=\s*0(?:\.0*)?\s*$' % re.escape(buf))
-            zero_alloc = re.compile(r'\b%s\s*=\s*np\.zeros\s*\(' % re.escape(buf))
-            zeroed = any(n2 < no and (zero_cell.match(l2) or zero_alloc.search(l2)) for n2, l2 in f['lines'])
-            accums.append({'file': rel, 'line': no, 'func': f['name'], 'buffer': buf, 'zeroed': bool(zeroed)})
-    return allocs, accums
+            acc_space = _index_space(by_no, no, idx, conditional_ok=True)
+            zero_cell = re.compile(r'^\s*%s\s*\[([^\]]*)\]\s*=\s*0(?:\.0*)?\s*$' % re.escape(buf))
+            bind = re.compile(r'(?:^|[\s\]])%s\s*=\s*(?!=)(.+)$' % re.escape(buf))
+            init = 'uninitialised'
+            for n2, l2 in f['lines']:
+                if n2 >= no:
+                    break
+                z = zero_cell.match(l2)
+                if z:
+                    zs = _index_space(by_no, n2, z.group(1))
+                    same_loop = (n2 < no and zs == acc_space and zs[0] == 'full')
+                    # zeroing at the top of the very loop body that accumulates (`out[i] = 0` then `out[i] += ..`)
+                    if same_loop or (zs[0] == 'full' and acc_space[0] == 'full' and zs[1] == acc_space[1]):
+                        init = 'zeroLoop'
+                    continue
+                bm = bind.search(l2)
+                if bm and not re.match(r'^\s*(if|elif|while|assert|return)\b', l2):
+                    cond = any(not (_PYX_LOOP.match(h) or re.match(r'^with\s+(nogil|gil)\b', h)
+                                    or re.match(r'^(def|cpdef|cdef)\b', h))
+                               for _, h in _enclosing(by_no, n2))
+                    rhs = bm.group(1)
+                    if cond:
+                        continue
+                    if re.search(r'\bnp\.zeros\s*\(', rhs):
+                        init = 'zerosAlloc'
+                    elif re.search(r'\bnp\.(empty|empty_like|ndarray)\s*\(', rhs):
+                        init = 'uninitialised'
+                    else:
+                        init = 'computedBinding'
+            accums.append({'file': rel, 'line': no, 'func': f['name'], 'buffer': buf, 'init': init})
+    return allocs, accums, wheres
 
 
 def scan_sources(repo_dir):
@@ -293,16 +573,16 @@ def scan_sources(repo_dir):
                 v.visit(tree)
                 ufunc_sites += v.ufunc_sites
                 other_where += v.other_where
-                if rel in ANCHOR_FILES:
-                    for call, fn_name, attr in v.alloc_calls:
-                        t, kind = _classify_alloc(tree, call)
-                        allocs.append({'file': rel, 'line': call.lineno, 'func': fn_name, 'call': attr,
-                                       'target': t, 'init': kind})
-            elif fn.endswith('.pyx') and rel in ANCHOR_FILES:
+                for call, fn_name, attr in v.alloc_calls:          # every module, not only the anchors
+                    t, kind = _classify_alloc(tree, call)
+                    allocs.append({'file': rel, 'line': call.lineno, 'func': fn_name, 'call': attr,
+                                   'target': t, 'init': kind})
+            elif fn.endswith('.pyx'):
                 with open(p, encoding='utf-8', errors='replace') as f:
-                    a, c = _scan_pyx(rel, f.read())
+                    a, c, w = _scan_pyx(rel, f.read())
                 allocs += a
                 accums += c
+                ufunc_sites += w
     key = lambda s: (s['file'], s['line'])
     return (sorted(ufunc_sites, key=key), sorted(other_where, key=key), sorted(allocs, key=key),
             sorted(accums, key=key))
@@ -321,24 +601,27 @@ def translate(repo_dir, gen_dir):
     out = []
     out.append('/-! GENERATED by harness/props/c19.py `translate` from the source tree on every run - do not edit.')
     out.append('`sites`: every call of a numpy ufunc carrying `where=` in enspara/**/*.py (tests excluded).')
-    out.append('`allocSites`: np.empty / np.empty_like / np.ndarray( allocations in the files C19 is anchored in.')
+    out.append('`allocSites`: np.empty / np.empty_like / np.ndarray( allocations in enspara/**/*.py and *.pyx (tests excluded).')
     out.append('`accumSites`: first compound assignment into each indexed buffer of every function of the')
-    out.append('anchored .pyx files, and whether a zeroing of that buffer textually precedes it. -/')
+    out.append('.pyx files, and how that buffer got defined content before it (see `_scan_pyx`). -/')
     out.append('namespace Ens.Generated.UfuncSites')
     out.append('')
     out.append('structure UfuncSite where')
     out.append('  file : String\n  line : Nat\n  func : String\n  ufunc : String\n  hasOut : Bool')
     out.append('  deriving Repr')
     out.append('')
-    out.append('inductive InitKind | fillNext | loopAssign | objectNone | uninitialised')
+    out.append('inductive InitKind | fillNext | loopAssign | objectNone | collectiveFill | uninitialised')
     out.append('  deriving Repr, DecidableEq')
     out.append('')
     out.append('structure AllocSite where')
     out.append('  file : String\n  line : Nat\n  func : String\n  call : String\n  target : String\n  init : InitKind')
     out.append('  deriving Repr')
     out.append('')
+    out.append('inductive AccumInit | zeroLoop | zerosAlloc | computedBinding | uninitialised')
+    out.append('  deriving Repr, DecidableEq')
+    out.append('')
     out.append('structure AccumSite where')
-    out.append('  file : String\n  line : Nat\n  func : String\n  buffer : String\n  zeroed : Bool')
+    out.append('  file : String\n  line : Nat\n  func : String\n  buffer : String\n  init : AccumInit')
     out.append('  deriving Repr')
     out.append('')
 
@@ -360,9 +643,9 @@ def translate(repo_dir, gen_dir):
             _lean_str(s['file']), s['line'], _lean_str(s['func']), _lean_str(s['call']),
             _lean_str(s['target']), s['init']) for s in allocs])
     lst('accumSites', 'AccumSite',
-        ['{ file := %s, line := %d, func := %s, buffer := %s, zeroed := %s }' % (
-            _lean_str(s['file']), s['line'], _lean_str(s['func']), _lean_str(s['buffer']),
-            'true' if s['zeroed'] else 'false') for s in accums])
+        ['{ file := %s, line := %d, func := %s, buffer := %s, init := .%s }' % (
+            _lean_str(s['file']), s['line'], _lean_str(s['func']), _lean_str(s['buffer']), s['init'])
+         for s in accums])
     out.append('end Ens.Generated.UfuncSites')
     text = '\n'.join(out) + '\n'
     os.makedirs(gen_dir, exist_ok=True)
@@ -378,11 +661,12 @@ def translate(repo_dir, gen_dir):
         os.replace(tmp, path)
     info = {
         'summary': '%d masked ufunc sites (%d without out=), %d empty-allocation sites (%d not recognisably '
-                   'initialised), %d accumulating kernel buffers (%d not zeroed first), %d non-ufunc where= calls '
+                   'initialised), %d accumulating kernel buffers (%d not initialised first), %d non-ufunc where= calls '
                    'filtered' % (
                        len(ufunc_sites), sum(not s['hasOut'] for s in ufunc_sites),
-                       len(allocs), sum(s['init'] == 'uninitialised' for s in allocs),
-                       len(accums), sum(not s['zeroed'] for s in accums), len(other_where)),
+                       len(allocs), sum(s['init'] == 'uninitialised' and (s['file'], s['func'], s['target']) not in REVIEWED_ALLOCS
+                                        for s in allocs),
+                       len(accums), sum(s['init'] == 'uninitialised' for s in accums), len(other_where)),
         'ufunc_sites': ufunc_sites, 'alloc_sites': allocs, 'accum_sites': accums,
         'filtered_where_calls': len(other_where),
         'sha256': hashlib.sha256(text.encode()).hexdigest(),
@@ -2583,12 +2867,17 @@ def model_correspondence(ctx):
 # run / replay
 # --------------------------------------------------------------------------------------
 
+# mirror of `reviewedAllocs` in lean/Props/C19.lean (file, function, target)
+REVIEWED_ALLOCS = {('enspara/mpi/io.py', 'load_npy_as_striped', 'local_data')}
+
+
 def _source_obligation_targets():
     """routines of the API table reached by a site the regenerated obligations reject"""
     t = _LAST_TRANSLATION
     bad = [s for s in t.get('ufunc_sites', []) if not s['hasOut']]
-    bad += [s for s in t.get('alloc_sites', []) if s['init'] == 'uninitialised']
-    bad += [s for s in t.get('accum_sites', []) if not s['zeroed']]
+    bad += [s for s in t.get('alloc_sites', []) if s['init'] == 'uninitialised'
+            and (s['file'], s['func'], s['target']) not in REVIEWED_ALLOCS]
+    bad += [s for s in t.get('accum_sites', []) if s['init'] == 'uninitialised']
     targets = []
     for s in bad:
         for r in REACHES.get(s['func'], []):
